@@ -87,6 +87,8 @@ def seq_items(I, v):
 
 
 def concrete_iter(I, it):
+    if isinstance(it, IterV):
+        it = it.seq
     items = seq_items(I, it)
     if items is not None:
         return items
@@ -121,6 +123,8 @@ def concrete_iter(I, it):
 
 def symbolic_iter(I, it):
     """(length term, item_of(index SV) -> value) for sequences of symbolic length"""
+    if isinstance(it, IterV):
+        it = it.seq
     if isinstance(it, RangeV):
         if it.step != 1:
             raise Unsupported('symbolic range with step')
@@ -140,6 +144,13 @@ def symbolic_iter(I, it):
         parts = [symbolic_iter(I, s) if concrete_iter(I, s) is None else None for s in it.seqs]
         raise Unsupported('zip over symbolic sequences')
     raise Unsupported('iteration over %r' % (it,))
+
+
+class IterV:
+    """iter(seq): a fresh iterator object over a sequence (never identical to the sequence; consumed as a whole --
+    next() on it is not modelled)"""
+    def __init__(self, seq):
+        self.seq = seq
 
 
 class _Enum:
@@ -532,6 +543,8 @@ def list_assign_all(I, target, v):
 def list_extend(I, target, v):
     st = I.st
     st.note_write(target)
+    if isinstance(v, IterV):
+        v = v.seq
     if target.kind == 'clist':
         items = seq_items(I, v)
         if items is not None:
@@ -960,7 +973,12 @@ def identical(I, a, b):
         r = compare(I, ast.Eq(), a, b)
         return r if isinstance(r, bool) else r.t
     if numkind(a) is not None and numkind(b) is not None:
-        return False if numkind(a) != numkind(b) else _unsup('identity of floats')
+        if numkind(a) != numkind(b):
+            return False
+        # two float objects: whether they are the same object is not determined by their values -- an arbitrary
+        # boolean (nothing proved may depend on it; a refutation that does is reported no-failing-input-found at worst)
+        I.st.assumptions.add('`is` on two floats is an arbitrary boolean (object identity of floats is not modelled)')
+        return z3.Bool(I.st.fresh_name('float!is'))
     return a is b
 
 
